@@ -26,7 +26,7 @@ def generate(tier, seed):
     for name in sources.PROTEINS:
         for k in range(2 if tier == "quick" else 24):
             cases.append({"kind": "file", "file": name, "seed": "%d:%s:%d" % (seed, name, k), "cost": 300})
-    n = 120 if tier == "quick" else 4000
+    n = 300 if tier == "quick" else 4000
     for k in range(n):
         cases.append({"kind": "built", "seed": "%d:b:%d" % (seed, k), "cost": 40})
     return cases
@@ -66,6 +66,11 @@ def run_case(case, tier):
     motion.compare_heavy(run0, runT, back_key, viol, counts, classes)
     counts["tier1"] = 1
     amino = all(r.raw is not None or r.tag == "ATOM  " for r in recs) and len(run0.rec["names"]) == 1
+    if viol:
+        # tiers 2 and 3 compare pKa values on top of identical heavy-atom quantities; when tier 1
+        # already differs they would only repeat the same difference
+        counts["tiers23_skipped_after_tier1_difference"] = 1
+        amino = False
     ntit = sum(1 for g in run0.rec["confs"]["AVR"]["groups"] if g["titratable"])
     nhb = sum(len(g["det"]["sidechain"]) + len(g["det"]["backbone"]) for g in run0.rec["confs"]["AVR"]["groups"])
     if amino:
